@@ -236,7 +236,7 @@ REGISTRY["C04"] = dict(REGISTRY["C01"], **{
                    "script re-run with its system fee cut at a plan-chosen per-mille point plus up to 48 (thorough; quick 4) cut points "
                    "spread over the distinct cumulative-gas levels recorded in a dry run, (iii) an exception raised at depth 1-3 of a "
                    "call tree and caught by the caller (the callee also called with restricted call flags, or as a dynamically loaded script under the entry "
-                   "script's try block). Fault points per script are enumerated, scripts and histories are sampled"),
+                   "script's try block; or 250+ exceptions thrown by a called function and caught in a loop, which must halt if one round does). Fault points per script are enumerated, scripts and histories are sampled"),
     "level_note": ("trusted: helper contracts (hand-assembled NeoVM code), the twin construction. Not demanded: empty Events of a FAULTed "
                    "transaction's execution result (neo-go keeps them in the log while applying none). Failures that neo-go does not "
                    "make catchable (X FAULTs although wrapped in try) are outside the caught-exception clause and only counted"),
